@@ -71,10 +71,35 @@ UB_RE = re.compile(r"Undefined Behavior|error: .*data race|Data race detected|er
 UNSUP_RE = re.compile(r"unsupported operation|can't call foreign function|not available in Miri|error: could not compile|error\[E\d+\]")
 
 
+def known_signatures(prop):
+    """signatures of committed known findings (the native check already reports them as KNOWN-FINDING)"""
+    sigs = set()
+    paths = [os.path.join(ROOT, "known_findings.json")]
+    d = os.path.join(ROOT, "known_findings.d")
+    if os.path.isdir(d):
+        paths += sorted(os.path.join(d, f) for f in os.listdir(d) if f.endswith(".json"))
+    for p in paths:
+        try:
+            for f in json.load(open(p)).get("findings", []):
+                if f.get("property") == prop:
+                    sigs.add(f.get("signature"))
+        except Exception:
+            pass
+    return sigs
+
+
+KNOWN = set()
+
+
 def classify(text, rc, timed_out):
     """-> (status, note)"""
-    if "SAN-FAIL" in text:
-        return "oracle_failed", first_line(text, "SAN-FAIL")
+    fails = [l for l in text.splitlines() if l.startswith("SAN-FAIL")]
+    new = [l for l in fails if not any(("sig=%s " % k) in l for k in KNOWN)]
+    if new:
+        return "oracle_failed", new[0].strip()[:300]
+    if fails and not UB_RE.search(text):
+        # only failures of known (committed) finding classes: the shared oracle exits 3, nothing new
+        return "clean_known_findings_only", "%d oracle failures, all of known classes" % len(fails)
     m = UB_RE.search(text)
     if m and "requires unavailable target features" in text:
         # the interpreted target lacks a CPU feature the code was written for: nothing was checked
@@ -132,6 +157,7 @@ def main():
         print("usage: leg.py <Cxx> <tier> <seed>", file=sys.stderr)
         return 2
     prop, tier, seed = sys.argv[1], sys.argv[2], sys.argv[3]
+    KNOWN.update(known_signatures(prop))
     os.makedirs(WORK, exist_ok=True)
     pkg, shards, timeout = plan(prop, tier, seed)
     t0 = time.time()
@@ -167,8 +193,8 @@ def main():
         futs = [ex.submit(run_one, prop, pkg, a, i, timeout, seed) for i, a in enumerate(shards)]
         res = [f.result() for f in futs]
     bad = [r for r in res if r["status"] in ("ub_found", "oracle_failed")]
-    clean = [r for r in res if r["status"] == "clean"]
-    other = [r for r in res if r["status"] not in ("ub_found", "oracle_failed", "clean")]
+    clean = [r for r in res if r["status"] in ("clean", "clean_known_findings_only")]
+    other = [r for r in res if r["status"] not in ("ub_found", "oracle_failed", "clean", "clean_known_findings_only")]
     totals = {}
     for r in res:
         for k, v in r["stats"].items():
